@@ -38,7 +38,7 @@ def parse_hunks_from_resp(x):
 def run(R):
     if not R.build():
         return
-    R.lean(["C13U", "C13C", "C03Loop"])
+    R.lean(["C13U", "C13C", "C03Loop", "C13Run"])
     import hunted
     hunted.run(R, "C13")
     quick = R.tier == "quick"
